@@ -1296,4 +1296,90 @@ theorem top_loop (p : Prog ε) (hwf : Prog.WF X p) : Parses (.ref nTop) (Prog.to
     exact Parses.ref (n := nTop) (Parses.s_ifEof_cons (a := .eps (Tree.list [])) (this.s_to (by
       simp [Tree.nth, Tree.seq, Tree.kids, Tree.list, optList_ok (Decl.tree_ok X d)])))
 
+/-! ## the executable well-formedness tests are the predicates -/
+
+theorem stepWfb_iff (st : Option (Tok × ε)) : stepWfb X st = true ↔ stepWF X st := by
+  cases st with
+  | none => simp [stepWfb, stepWF]
+  | some p => obtain ⟨t, e⟩ := p; simp [stepWfb, stepWF]
+
+mutual
+theorem Stmt.wfb_iff : (s : Stmt ε) → (s.wfb X = true ↔ s.WF X)
+  | .assign lhs op e => by simp [Stmt.wfb, Stmt.WF, and_assoc]
+  | .expr e => by simp [Stmt.wfb, Stmt.WF, and_assoc]
+  | .ret kw e => by simp [Stmt.wfb, Stmt.WF]
+  | .ctl kw => by simp [Stmt.wfb, Stmt.WF]
+  | .lvar kw name colon ty => by simp [Stmt.wfb, Stmt.WF, and_assoc]
+  | .ifS kw c body tail => by simp [Stmt.wfb, Stmt.WF, Stmts.wfb_iff body, IfTail.wfb_iff tail, and_assoc]
+  | .whileS kw c body endT => by simp [Stmt.wfb, Stmt.WF, Stmts.wfb_iff body, and_assoc]
+  | .loopS kw body endT => by simp [Stmt.wfb, Stmt.WF, Stmts.wfb_iff body, and_assoc]
+  | .forS kw var eq lo to hi step body endT => by
+    simp [Stmt.wfb, Stmt.WF, Stmts.wfb_iff body, stepWfb_iff, and_assoc]
+theorem Stmts.wfb_iff : (ss : List (Stmt ε)) → (Stmts.wfb X ss = true ↔ Stmts.WF X ss)
+  | [] => by simp [Stmts.wfb, Stmts.WF]
+  | s :: rest => by simp [Stmts.wfb, Stmts.WF, Stmt.wfb_iff s, Stmts.wfb_iff rest]
+theorem IfTail.wfb_iff : (tl : IfTail ε) → (tl.wfb X = true ↔ tl.WF X)
+  | .endif t => by simp [IfTail.wfb, IfTail.WF]
+  | .els t body endT => by simp [IfTail.wfb, IfTail.WF, Stmts.wfb_iff body, and_assoc]
+  | .elif t c body tail => by simp [IfTail.wfb, IfTail.WF, Stmts.wfb_iff body, IfTail.wfb_iff tail, and_assoc]
+end
+
+theorem Param.wfb_iff (p : Param) : p.wfb = true ↔ p.WF := by
+  obtain ⟨md, name, colon, ty⟩ := p
+  cases md <;> simp [Param.wfb, Param.WF, and_assoc]
+
+theorem restWfb_iff (rest : List (Tok × Param)) : restWfb rest = true ↔ restWF rest := by
+  induction rest with
+  | nil => simp [restWfb, restWF]
+  | cons cp more ih => obtain ⟨c, p⟩ := cp; simp [restWfb, restWF, ih, Param.wfb_iff, and_assoc]
+
+theorem ParamList.wfb_iff (ps : ParamList) : ps.wfb = true ↔ ps.WF := by
+  cases ps <;> simp [ParamList.wfb, ParamList.WF, Param.wfb_iff, restWfb_iff, and_assoc]
+
+theorem optParamsWfb_iff (ps : Option ParamList) : optParamsWfb ps = true ↔ optParamsWF ps := by
+  cases ps <;> simp [optParamsWfb, optParamsWF, ParamList.wfb_iff]
+
+theorem parentWfb_iff (q : Option (Tok × Tok × Tok)) : parentWfb q = true ↔ parentWF q := by
+  cases q with
+  | none => simp [parentWfb, parentWF]
+  | some q => obtain ⟨a, b, c⟩ := q; simp [parentWfb, parentWF, and_assoc]
+
+theorem Decl.wfb_iff (d : Decl ε) : d.wfb X = true ↔ d.WF X := by
+  cases d <;> simp [Decl.wfb, Decl.WF, Stmts.wfb_iff, optParamsWfb_iff, parentWfb_iff, and_assoc]
+
+theorem Prog.wfb_iff (p : Prog ε) : Prog.wfb X p = true ↔ Prog.WF X p := by
+  induction p with
+  | nil => simp [Prog.wfb, Prog.WF]
+  | cons d rest ih => simp [Prog.wfb, Prog.WF, Decl.wfb_iff, ih]
+
+/-! ## the instance for `Ex`: what is needed beyond `expr_roundtrip` -/
+
+theorem fails_dotops_nonident (t : Tok) (k : List Tok) (hni : t.kind ∉ identKinds) (hc : t.kind ≠ Kind.Comment) :
+    Fails (.ref nDotOps) (t :: k) := by
+  have hid := fails_identifier t k hni hc
+  have hmc : Fails (.ref nMethodCall) (t :: k) :=
+    Fails.ref (n := nMethodCall) (Fails.memo (c := 2)
+      (Fails.map (Fails.seqL (pre := []) ParsesList.nil hid)))
+  have haa : Fails gArrayAccess (t :: k) := Fails.map (Fails.seqL (pre := []) ParsesList.nil hid)
+  have hop : Fails gDotOp (t :: k) :=
+    Fails.altL (gs := [.ref nMethodCall, gArrayAccess, .ref nIdentifier]) (by
+      intro a ha
+      simp only [List.mem_cons, List.not_mem_nil, or_false] at ha
+      rcases ha with rfl | rfl | rfl
+      · exact hmc
+      · exact haa
+      · exact hid)
+  exact Fails.ref (n := nDotOps) (Fails.map (Fails.seq1 hop))
+
+/-- an expression whose first token is not identifier-like is not taken for an assignment -/
+theorem noAssign_of_first (ets k : List Tok)
+    (h : firstKindOK (fun x => !identKinds.contains x && x != Kind.Comment) ets = true) : Fails gAssignment (ets ++ k) := by
+  obtain ⟨t, r, rfl, ht⟩ := firstKindOK_cons h
+  simp only [Bool.and_eq_true, Bool.not_eq_eq_eq_not, Bool.not_true, bne_iff_ne, ne_eq] at ht
+  have hni : t.kind ∉ identKinds := by
+    intro hin
+    rw [List.contains_iff_mem.mpr hin] at ht
+    cases ht.1
+  exact Fails.map (Fails.seqL (pre := []) ParsesList.nil (fails_dotops_nonident t (r ++ k) hni ht.2))
+
 end Gold.C06
